@@ -1907,6 +1907,23 @@ impl Gen {
                 let f = *self.rng.pick(&["sin", "cos", "abs", "floor", "fract", "sqrt", "exp2", "saturate"]);
                 vec![format!("acc = {}(acc);", f)]
             }
+            3 if self.rng.pct(50) => {
+                // function-scope constants (also one that SHADOWS a module-scope constant): they are not module constants
+                self.feat("local_const");
+                let shadow: Vec<String> = self.consts.iter().filter(|c| matches!(c.kind, CKind::F32 | CKind::AFloat)).map(|c| c.name.clone()).collect();
+                if !shadow.is_empty() && self.rng.pct(30) {
+                    self.feat("local_const_shadows_module_const");
+                    let n = self.rng.pick(&shadow).clone();
+                    vec![format!("{{ const {}: f32 = 7.25; acc += {}; }}", n, n)]
+                } else {
+                    let l = self.local("LK");
+                    match self.rng.below(3) {
+                        0 => vec![format!("const {} = 3;", l), format!("acc += f32({});", l)],
+                        1 => vec![format!("const {}: u32 = 5u;", l), format!("acc += f32({});", l)],
+                        _ => vec![format!("const {} = -1.5;", l), format!("acc += {};", l)],
+                    }
+                }
+            }
             3 => vec![format!("acc = clamp(acc, 0.0, {});", self.flit())],
             4 => {
                 let l = self.local("lv");
@@ -4587,6 +4604,36 @@ pub fn diamond_pure(depth: usize, void_calls: bool) -> String {
         }
         s.push_str(&format!("@compute @workgroup_size(1)\nfn main() {{\n    dst[0] = a_{}();\n    dst[1] = b_{}();\n}}\n", depth - 1, depth - 1));
     }
+    s
+}
+
+/// the diamond ladder whose helpers take a POINTER parameter (`ptr<function, f32>`): helpers with pointer parameters are
+/// helpers like any other for the traversal
+pub fn diamond_ptr(depth: usize) -> String {
+    let depth = depth.max(1);
+    let mut s = String::new();
+    s.push_str("@group(0) @binding(0) var<uniform> uni: vec4<f32>;\n@group(0) @binding(1) var<storage, read_write> dst: array<f32>;\n\n");
+    s.push_str("fn a_0(p: ptr<function, f32>) {\n    *p = *p + uni.x;\n}\n\nfn b_0(p: ptr<function, f32>) {\n    *p = *p * 2.0;\n}\n\n");
+    for i in 1..depth {
+        s.push_str(&format!("fn a_{}(p: ptr<function, f32>) {{\n    a_{}(p);\n    b_{}(p);\n}}\n\n", i, i - 1, i - 1));
+        s.push_str(&format!("fn b_{}(p: ptr<function, f32>) {{\n    b_{}(p);\n    a_{}(p);\n}}\n\n", i, i - 1, i - 1));
+    }
+    s.push_str(&format!("@compute @workgroup_size(1)\nfn main() {{\n    var x: f32 = 1.0;\n    a_{}(&x);\n    b_{}(&x);\n    dst[0] = x;\n}}\n", depth - 1, depth - 1));
+    s
+}
+
+/// a chain of `helpers` void helpers, each call sitting inside 12 nested `if`s: every function is shallow, the summed
+/// block-plus-call depth along the path is `13 * helpers` (a walk that carries one depth counter across calls gives up)
+pub fn nested_ifs(helpers: usize) -> String {
+    let mut s = String::new();
+    s.push_str("@group(0) @binding(0) var<uniform> uni: vec4<f32>;\n@group(0) @binding(1) var<storage, read_write> dst: array<f32>;\n\n");
+    s.push_str("fn h_0() {\n    dst[0] = uni.x;\n}\n\n");
+    for i in 1..=helpers {
+        let open: String = (0..12).map(|k| format!("if uni.x > {}.0 {{ ", k)).collect();
+        let close: String = (0..12).map(|_| "} ").collect();
+        s.push_str(&format!("fn h_{}() {{\n    {}h_{}(); {}\n}}\n\n", i, open, i - 1, close));
+    }
+    s.push_str(&format!("@compute @workgroup_size(1)\nfn main() {{\n    h_{}();\n}}\n", helpers));
     s
 }
 
